@@ -32,7 +32,8 @@ CONSTANTS
   SwCoerceResetsMsg,    \* IssueFromCoerce clears Message
   SwCollectOncePerIssue, \* CollectMap releases each issue once ($first is the same object as a keyed one)
   SwPoolNewFresh,       \* a pool's New function allocates a new object every time it is called
-  SwFrontEndIssueFresh  \* the issue a front end reports for an undecodable body is a new, fully initialised object
+  SwFrontEndIssueFresh, \* the issue a front end reports for an undecodable body is a new, fully initialised object
+  SwResultOwnsStorage   \* the map / list a call returns has storage of its own (not memory of the pooled collection object)
 
 ObjKinds == {"exec", "errs", "path", "sctx", "issue"}
 CONSTANT MaxObj   \* ids per kind
@@ -53,9 +54,10 @@ VARIABLES
   pc,       \* per goroutine: [call number, kind, program counter, held objects, issues built]
   ncall,    \* global call counter (call identity)
   stale,    \* set of stale reads observed: [call, kind, field, writer]
-  clash     \* set of ownership clashes observed: [kind, id, what]
+  clash,    \* set of ownership clashes observed: [kind, id, what]
+  kept      \* what the user can still read from results it was given and has not handed back: [k, id, f, c]
 
-vars == <<bag, wr, holder, fresh, pc, ncall, stale, clash>>
+vars == <<bag, wr, holder, fresh, pc, ncall, stale, clash, kept>>
 
 \* a call made from inside a user callback of another call runs on the same goroutine while the outer call is suspended:
 \* modelled as a child process that may only run while its parent waits at a "nest" operation
@@ -116,6 +118,7 @@ Init ==
   /\ ncall = 0
   /\ stale = {}
   /\ clash = {}
+  /\ kept = {}
 
 StartCall(p, kind, collect) ==
   /\ p \in Procs
@@ -123,7 +126,7 @@ StartCall(p, kind, collect) ==
   /\ ncall' = ncall + 1
   /\ pc' = [pc EXCEPT ![p] = [Idle EXCEPT !.call = ncall + 1, !.kind = kind, !.i = 1, !.done = pc[p].done,
                                            !.retd = IF collect THEN <<"collect">> ELSE <<>>]]
-  /\ UNCHANGED <<bag, wr, holder, fresh, stale, clash>>
+  /\ UNCHANGED <<bag, wr, holder, fresh, stale, clash, kept>>
 
 CurProg(p) == Prog(pc[p].kind, pc[p].retd = <<"collect">>)
 Op(p) == CurProg(p)[pc[p].i]
@@ -153,7 +156,7 @@ DoGet(p) ==
        /\ GetObj(p, k, id)
        /\ wr' = [wr EXCEPT ![k][id] = InitWrites(k, wr[k][id], pc[p].call)]
        /\ pc' = [Advance(p) EXCEPT ![p].held[k] = id]
-  /\ UNCHANGED <<ncall, stale>>
+  /\ UNCHANGED <<ncall, stale, kept>>
 
 PutObj(k, id, who) ==
   /\ bag' = [bag EXCEPT ![k][id] = @ + 1]
@@ -165,7 +168,7 @@ DoPut(p) ==
   /\ pc[p].call # 0 /\ Op(p)[1] = "put"
   /\ LET k == Op(p)[2] IN PutObj(k, pc[p].held[k], p)
   /\ pc' = Advance(p)
-  /\ UNCHANGED <<wr, fresh, ncall, stale>>
+  /\ UNCHANGED <<wr, fresh, ncall, stale, kept>>
 
 \* a read of field f of object (k,id) by call c: stale if another call wrote it last
 Read(c, kind, k, id, f) ==
@@ -189,7 +192,7 @@ DoLocal(p) ==
              [] op = "add"       -> Read(c, kind, "errs", h["errs"], "coll")
              [] OTHER            -> {})
      /\ pc' = IF op = "add" THEN [Advance(p) EXCEPT ![p].iss = Append(@, h["issue"])] ELSE Advance(p)
-  /\ UNCHANGED <<bag, holder, fresh, ncall, clash>>
+  /\ UNCHANGED <<bag, holder, fresh, ncall, clash, kept>>
 
 \* an issue is created at one of the three sites
 DoIssue(p) ==
@@ -203,7 +206,7 @@ DoIssue(p) ==
                                             msg |-> IF SwCoerceResetsMsg THEN 0 ELSE @.msg]
                      [] OTHER           -> [core |-> c, params |-> 0, msg |-> 0]]
        /\ pc' = [Advance(p) EXCEPT ![p].held["issue"] = id]
-  /\ UNCHANGED <<ncall, stale>>
+  /\ UNCHANGED <<ncall, stale, kept>>
 
 \* the front end's issue: a new object whose every field the front end (and the root node) sets -- or, with the switch
 \* off, a pooled object of which only the core is set
@@ -219,7 +222,7 @@ DoIssueJ(p) ==
           ELSE /\ GetObj(p, "issue", id)
                /\ wr' = [wr EXCEPT !["issue"][id] = [core |-> c, params |-> @.params, msg |-> @.msg]]
        /\ pc' = [Advance(p) EXCEPT ![p].held["issue"] = id]
-  /\ UNCHANGED <<ncall, stale>>
+  /\ UNCHANGED <<ncall, stale, kept>>
 
 \* a user callback of p's call makes a call of its own: the child runs one complete failing call, then p goes on
 StartNested(p) ==
@@ -227,19 +230,19 @@ StartNested(p) ==
   /\ pc[Child(p)].call = 0 /\ pc[Child(p)].done = 0
   /\ ncall' = ncall + 1
   /\ pc' = [pc EXCEPT ![Child(p)] = [Idle EXCEPT !.call = ncall + 1, !.kind = "fail1", !.i = 1]]
-  /\ UNCHANGED <<bag, wr, holder, fresh, stale, clash>>
+  /\ UNCHANGED <<bag, wr, holder, fresh, stale, clash, kept>>
 
 EndNested(p) ==
   /\ p \in Procs /\ pc[p].call # 0 /\ Op(p)[1] = "nest"
   /\ pc[Child(p)].call = 0 /\ pc[Child(p)].done = 1
   /\ pc' = [Advance(p) EXCEPT ![Child(p)] = Idle]
-  /\ UNCHANGED <<bag, wr, holder, fresh, ncall, stale, clash>>
+  /\ UNCHANGED <<bag, wr, holder, fresh, ncall, stale, clash, kept>>
 
 DoSwallow(p) ==
   /\ pc[p].call # 0 /\ Op(p)[1] = "swallow"
   /\ PutObj("issue", pc[p].held["issue"], p)
   /\ pc' = Advance(p)
-  /\ UNCHANGED <<wr, fresh, ncall, stale>>
+  /\ UNCHANGED <<wr, fresh, ncall, stale, kept>>
 
 \* the call returns: the caller reads every field of every issue; ownership passes to the user
 DoRet(p) ==
@@ -250,6 +253,8 @@ DoRet(p) ==
      /\ holder' = [holder EXCEPT !["issue"] = [id \in Ids |-> IF \E j \in DOMAIN is : is[j] = id THEN (holder["issue"][id] \ {p}) \cup {0} ELSE holder["issue"][id]]]
      /\ clash' = IF \E j1, j2 \in DOMAIN is : j1 # j2 /\ is[j1] = is[j2]
                  THEN clash \cup {[kind |-> "issue", id |-> 0, what |-> "one object returned as two issues"]} ELSE clash
+     /\ kept' = kept \cup {[k |-> "issue", id |-> is[j], f |-> fld, c |-> c] : j \in DOMAIN is, fld \in Fields("issue")}
+                     \cup (IF SwResultOwnsStorage \/ is = <<>> THEN {} ELSE {[k |-> "errs", id |-> pc[p].held["errs"], f |-> "coll", c |-> c]})
   /\ pc' = IF pc[p].retd = <<"collect">> THEN Advance(p) ELSE [pc EXCEPT ![p] = [Idle EXCEPT !.done = pc[p].done + 1]]
   /\ UNCHANGED <<bag, wr, fresh, ncall>>
 
@@ -267,6 +272,8 @@ DoCollect(p) ==
      IN /\ bag' = [bag EXCEPT !["issue"] = R[Len(rel)].b]
         /\ holder' = [holder EXCEPT !["issue"] = R[Len(rel)].h]
         /\ clash' = clash \cup R[Len(rel)].cl
+  \* what was handed back is no longer the user's to read
+  /\ kept' = {r \in kept : r.c # pc[p].call}
   /\ pc' = [pc EXCEPT ![p] = [Idle EXCEPT !.done = pc[p].done + 1]]
   /\ UNCHANGED <<wr, fresh, ncall, stale>>
 
@@ -274,7 +281,13 @@ DoCollect(p) ==
 GCDrop(k) ==
   /\ \E id \in Ids : bag[k][id] > 0
   /\ bag' = [bag EXCEPT ![k] = [id \in Ids |-> 0]]
-  /\ UNCHANGED <<wr, holder, fresh, pc, ncall, stale, clash>>
+  /\ UNCHANGED <<wr, holder, fresh, pc, ncall, stale, clash, kept>>
+
+\* at any later time the user reads again what it kept: it still reads what the call that returned it wrote
+UserReread ==
+  /\ \E r \in kept : wr[r.k][r.id][r.f] \notin {0, r.c}
+  /\ stale' = stale \cup {[call |-> r.c, ckind |-> "kept", obj |-> r.k, field |-> r.f, writer |-> wr[r.k][r.id][r.f]] : r \in {x \in kept : wr[x.k][x.id][x.f] \notin {0, x.c}}}
+  /\ UNCHANGED <<bag, wr, holder, fresh, pc, ncall, clash, kept>>
 
 Step(p) == DoGet(p) \/ DoPut(p) \/ DoLocal(p) \/ DoIssue(p) \/ DoIssueJ(p) \/ DoSwallow(p) \/ DoRet(p) \/ DoCollect(p)
 
@@ -283,6 +296,7 @@ Next ==
   \/ \E p \in AllProcs : Step(p)
   \/ \E p \in Procs : StartNested(p) \/ EndNested(p)
   \/ \E k \in {"issue", "exec"} : GCDrop(k)
+  \/ UserReread
 
 Spec == Init /\ [][Next]_vars
 
@@ -296,5 +310,5 @@ ExclusiveOwner ==
   /\ clash = {}
   /\ \A k \in ObjKinds, id \in Ids : Cardinality(holder[k][id]) + bag[k][id] <= 1
 
-View == <<bag, wr, holder, fresh, pc, stale, clash>>
+View == <<bag, wr, holder, fresh, pc, stale, clash, kept>>
 =============================================================================
